@@ -3,7 +3,7 @@ from registry_common import COMMON_ASSUME
 ENTRY = dict(
         title="Frame-version announcements trigger exactly the needed refreshes",
         design_ref="DESIGN.md section 6 / C15",
-        prop_modules=["C15", "C15Overlap", "C15Devices"],
+        prop_modules=["C15", "C15Overlap", "C15Devices", "C15Tables"],
         technique="Lean 4 theorems about the announcement handler in ANY device state (hence over all announcement histories) "
                   "+ correspondence: sensor-data / regulator-data frames into a real EcoMAX via handle_frame, queue observed after quiescence "
                   "+ Lean judge C15.spec on what the implementation queued",
@@ -21,6 +21,9 @@ ENTRY = dict(
         level_note="Trusted: Lean kernel; model <-> devices/__init__.py tie is differential (generated histories, every set of unsupported set-up kinds, "
                    "every code 0..255); asyncio task scheduling between one frame and quiescence is exercised, not modelled (one announcement at a time).",
         clauses={
+            'tables: which kinds are request kinds with versions, which kinds frame_errors can name, attribute names, has_frame_version / request signatures': 'table (Gen.requestKinds, Gen.setupKinds, Gen.attrFrame*, Gen.hasFrameVersionParams, Gen.requestParams extracted by the translator; pinned by requestKinds_are_the_request_frame_types, setupKinds_pinned, attr_names_pinned, bookkeeping_signatures_pinned)',
+            'version 0 is a version (presence, not truthiness)': 'theorem (version_zero_unchanged_queues_nothing, version_zero_first_announcement_refreshes; announce_exact has no hypothesis on the version) + correspondence (version 0 first / unchanged / after another version in every section)',
+            'announcements that arrive while the set-up is running, before frame_errors is known': "theorem (before_frame_errors_every_request_kind_refreshes, after_frame_errors_reported_kinds_stay_quiet, frame_errors_keeps_the_record) + correspondence (section `setup`: the REAL EcoMAX.async_setup() with 0..4 of the answerable set-up kinds answered, announcements before / between the three request time-outs / after; the set-up's own requests and re-attempts are `request` events of the model, frame_errors is dispatched by the code itself)",
             "changed version of a supported request kind -> one refresh request queued, version recorded": "theorem (queued_iff, queued_nodup, recorded_after, announce_exact)",
             "queued TO THAT DEVICE": "theorem (Props/C15Devices.lean over the device-system model Sys = address -> St with ONE shared queue of (kind, recipient) frames: queued_to_announcing_device — in every history over any number of devices every frame queued by an event carries the address of the device the event happened at; device_state_is_own_history / device_frames_are_own_history — a device's record and its refreshes are those of the single-device machine on its own events; holdsSys) + correspondence (EcoMAX 0x45 and EcoSTER 0x51 in one process on one queue, the same kinds announced to both in turn, recipients observed; judge C15.specSys on the shared queue)",
             "the record after a whole history": "theorem (recorded_history: after ANY history of announcements and frame_errors dispatches the record of k is the version of the last announcement that carried k while it was a supported request kind — histRecord reads it off the history alone; recorded_is_last_announced)",
